@@ -1085,6 +1085,14 @@ func (r *vlpRun) evExec(h *vlpHost, ccok bool) {
 				delete(h.reps, vlpKey{s, rid})
 				sb.WriteString(" deleted")
 			}
+			// the request completed: the proposing replica has applied the change
+			for _, k := range h.keys() {
+				if rep := h.reps[k]; k.shard == s && rep.running {
+					if _, m := c.members[k.rid]; m {
+						rep.ver = c.ver + 1
+					}
+				}
+			}
 			r.fl.hist[s] = append(r.fl.hist[s], vlpEntry{ver: c.ver + 1, members: nm})
 			r.logHist(s)
 		case pb.Request_KILL:
@@ -1258,8 +1266,38 @@ func (r *vlpRun) rotate() {
 			}
 		}
 	}
-	for v := 1; v <= quorum+1 && v <= sp.Hosts; v++ {
-		h := r.fl.hosts[v]
+	// hosts that hold a current member of shard 1: with / without the log of another (removed) replica of shard 1
+	memberHosts := func() (double, clean []*vlpHost) {
+		c := r.fl.cur(r.fl.shards[0])
+		if c == nil {
+			return
+		}
+		for _, h := range r.fl.hosts[1:] {
+			member, other := false, false
+			for k := range h.reps {
+				if k.shard != r.fl.shards[0] {
+					continue
+				}
+				if a, ok := c.members[k.rid]; ok && a == h.addr {
+					member = true
+				} else {
+					other = true
+				}
+			}
+			if member && other {
+				double = append(double, h)
+			} else if member {
+				clean = append(clean, h)
+			}
+		}
+		return
+	}
+	for rot := 0; rot < sp.Size+3 && r.fatal == ""; rot++ {
+		double, clean := memberHosts()
+		if len(double) >= quorum || len(clean) == 0 {
+			break
+		}
+		h := clean[0]
 		r.evCrash(h)
 		degraded(24, func() bool {
 			for _, s := range r.fl.shards {
@@ -1280,8 +1318,11 @@ func (r *vlpRun) rotate() {
 		r.evRestart(h)
 		degraded(2, nil)
 	}
-	for v := 1; v <= quorum; v++ {
-		r.evCrash(r.fl.hosts[v])
+	double, _ := memberHosts()
+	for i, h := range double {
+		if i < quorum {
+			r.evCrash(h)
+		}
 	}
 	degraded(5, nil)
 }
